@@ -8,7 +8,6 @@ import (
 
 	pipeline "github.com/buildkite/go-pipeline"
 	"github.com/buildkite/go-pipeline/warning"
-	"gopkg.in/yaml.v3"
 
 	"verif/doc"
 	"verif/gen"
@@ -72,13 +71,13 @@ func checkC09(c *run.Ctx) {
 		c.Feature(d.FeatureVector())
 
 		// Determinism: repeated marshalling is byte-identical.
-		jb, err := json.Marshal(p)
+		jb, err := safeJSONMarshal(p)
 		if err != nil {
 			viol("json.Marshal: "+err.Error(), nil)
 			return
 		}
 		for k := 1; k < reps; k++ {
-			jb2, err := json.Marshal(p)
+			jb2, err := safeJSONMarshal(p)
 			if err != nil || !bytes.Equal(jb, jb2) {
 				viol("two JSON marshals of one pipeline differ", map[string]any{"a": clip(string(jb), 3000), "b": clip(string(jb2), 3000)})
 				return
@@ -114,13 +113,13 @@ func checkC09(c *run.Ctx) {
 		if leadingWSMultiline(jn) {
 			c.Count("yaml_legs_skipped_leading_ws_multiline", 1)
 		} else {
-			yb, err := yaml.Marshal(p)
+			yb, err := safeYAMLMarshal(p)
 			if err != nil {
 				viol("yaml.Marshal: "+err.Error(), nil)
 				return
 			}
 			for k := 1; k < reps; k++ {
-				yb2, err := yaml.Marshal(p)
+				yb2, err := safeYAMLMarshal(p)
 				if err != nil || !bytes.Equal(yb, yb2) {
 					viol("two YAML marshals of one pipeline differ", map[string]any{"a": clip(string(yb), 3000), "b": clip(string(yb2), 3000)})
 					return
@@ -146,7 +145,7 @@ func checkC09(c *run.Ctx) {
 			if failed {
 				return
 			}
-			sb, err := json.Marshal(s)
+			sb, err := safeJSONMarshal(s)
 			if err != nil {
 				viol("json.Marshal(step): "+err.Error(), nil)
 				failed = true
@@ -165,7 +164,7 @@ func checkC09(c *run.Ctx) {
 			}
 			c.Count("standalone_command_steps", 1)
 			if len(s.Plugins) > 0 {
-				pb, err := json.Marshal(s.Plugins)
+				pb, err := safeJSONMarshal(s.Plugins)
 				if err != nil {
 					viol("json.Marshal(plugins): "+err.Error(), nil)
 					failed = true
@@ -230,9 +229,9 @@ func c09Roundtrip(text, leg string) (bool, string) {
 	}
 	var out []byte
 	if leg == "yaml" {
-		out, err = yaml.Marshal(p)
+		out, err = safeYAMLMarshal(p)
 	} else {
-		out, err = json.Marshal(p)
+		out, err = safeJSONMarshal(p)
 	}
 	if err != nil {
 		return true, "marshal fails: " + err.Error()
